@@ -46,6 +46,7 @@ def handleInformer (c : J) : Res := Id.run do
     if !implDel.isEmpty then r := tag r "delivered"
     if implStopped.isSome then r := tag r "stopped"
     r := tag r ("op-" ++ oj.getStr "op")
+    if oj.getBool "failedSubscribe" then r := tag r "failed-subscribe"
   let _ := outs
   -- C18 oracle: the history specification on the real observations
   r := judge r "C18" (firstSome (List.range ops.length) (fun i =>
@@ -60,6 +61,8 @@ def handleInformer (c : J) : Res := Id.run do
     orElse (check ((InfSpec.mustStart ops i).isSome == (lists.any (· > 0))) s!"op {i}: the underlying informer must start exactly when the first subscription opens (lists {lists})") fun _ =>
     orElse (check ((InfSpec.mustStop ops i).isSome == (closed.any (· > 0))) s!"op {i}: the underlying informer must stop exactly when the last subscription closes (watch closures {closed})") fun _ =>
     let implRc := (oj.getD "refCount").fields.map (fun kv => (kv.1, (kv.2.int?.getD 0).toNat))
+    orElse (firstSome implRc (fun (k, n) => check (keys.contains k || n == 0)
+      s!"op {i}: reference count {n} for {k}, to which no subscription was ever opened (a failed subscription must leave nothing behind)")) fun _ =>
     firstSome (List.range keys.length) (fun res =>
       let n := InfSpec.openCount ops (i + 1) res
       check ((implRc.lookup (keys.getD res "")).getD 0 == n) s!"op {i}: reference count of {keys.getD res ""} is {(implRc.lookup (keys.getD res "")).getD 0}, open subscriptions {n}")))
